@@ -104,7 +104,11 @@ def extract_uncache_after(cache_control: str) -> timedelta:
     match = CACHE_CONTROL_RE.search(cache_control)
     if match:
         max_age = int(match[1])
-        return timedelta(seconds=max_age)
+        try:
+            return timedelta(seconds=max_age)
+        except OverflowError:
+            # Larger than any representable duration: valid "forever".
+            return timedelta.max
     return DEFAULT_MAX_AGE
 
 
